@@ -8,6 +8,8 @@ From CR Require Import Model.Shutdown Proofs.Shutdown.
 (* send workers against the scheduler's stop: the step relation is chosen by the extracted shape of start() / stop(): Properties/Workers.v *)
 From CR Require Properties.Workers.
 From CR Require Import Model.Group Model.RunOrder Proofs.Group Proofs.RunOrder gen.ExtGroup.
+(* behind the connection seam: no write deadline is armed anywhere (extracted) *)
+From CR Require Properties.SeamDeadline.
 Local Open Scope N_scope.
 
 (* terminating: the trace is  pre ++ [final begin; final end; return nil]  where pre holds only
